@@ -34,9 +34,9 @@ func init() {
 
 var keyedCount = map[string]int{}
 
-// violateKeyed records at most 8 violations per key (the report keeps 200 in all), so that a frequent
+// violateKeyed16 records at most 8 violations per key (the report keeps 200 in all), so that a frequent
 // class cannot crowd out a rare one; the total per key is kept as a counter.
-func violateKeyed(c *Ctx, v Violation) {
+func violateKeyed16(c *Ctx, v Violation) {
 	c.R.Count("violations:"+v.Key, 1)
 	keyedCount[v.Key]++
 	if keyedCount[v.Key] <= 8 {
@@ -76,11 +76,11 @@ func c16CyclicEmbedding(c *Ctx) {
 	out, err := cmd.CombinedOutput()
 	c.R.Case("cyclic-pointer-embedding", true)
 	if err != nil {
-		msg := firstLine(string(out))
+		msg := firstLine16(string(out))
 		if i := strings.Index(string(out), "fatal error:"); i >= 0 {
-			msg = firstLine(string(out)[i:])
+			msg = firstLine16(string(out)[i:])
 		}
-		violateKeyed(c, Violation{What: "an environment struct that embeds a pointer to itself crashes the process in conf.FieldsFromStruct (unbounded recursion)",
+		violateKeyed16(c, Violation{What: "an environment struct that embeds a pointer to itself crashes the process in conf.FieldsFromStruct (unbounded recursion)",
 			Key: "c16:cyclic-pointer-embedding-stack-overflow", Input: c16Input{"ZCyc", "main.ZCyc (struct { Name string; *ZCyc })", "Name", "Name"},
 			Expect: "Compile returns (Name resolves to the field at depth 0)", Got: msg})
 	}
@@ -179,7 +179,7 @@ type realVerdict struct {
 	rerr     string
 }
 
-func compileRun(src string, env interface{}) (rv realVerdict) {
+func compileRun16(src string, env interface{}) (rv realVerdict) {
 	defer func() {
 		if r := recover(); r != nil {
 			rv.cerr = fmt.Sprintf("PANIC %v", r)
@@ -198,14 +198,14 @@ func compileRun(src string, env interface{}) (rv realVerdict) {
 		return
 	}
 	if err != nil {
-		rv.cerr = firstLine(err.Error())
+		rv.cerr = firstLine16(err.Error())
 		return
 	}
 	rv.accepted = true
 	rv.ty = ty
 	out, rerr := expr.Run(prog, env)
 	if rerr != nil {
-		rv.rerr = firstLine(rerr.Error())
+		rv.rerr = firstLine16(rerr.Error())
 		return
 	}
 	rv.ran = true
@@ -213,7 +213,7 @@ func compileRun(src string, env interface{}) (rv realVerdict) {
 	return
 }
 
-func firstLine(s string) string {
+func firstLine16(s string) string {
 	if i := strings.IndexByte(s, '\n'); i >= 0 {
 		return s[:i]
 	}
@@ -286,7 +286,7 @@ func tryCalls(prefix string, env interface{}, marker string) (string, realVerdic
 	firstSrc := ""
 	for i, args := range []string{"", "1", `"s"`, "1, 1", `1, "s"`, "true", "1.5"} {
 		src := prefix + "(" + args + ")"
-		cv := compileRun(src, env)
+		cv := compileRun16(src, env)
 		if cv.accepted || strings.Contains(cv.cerr, marker) {
 			return src, cv
 		}
@@ -691,7 +691,7 @@ func c16TopLevel(c *Ctx, e zooEnv, names []string, rows []*Sx) {
 		row := rows[i].List // name ident func fetch fetchfn reflfield doc
 		in := c16Input{e.Name, t.String(), name, name}
 		fieldFound, exported, ftype, depth, methodFound, _, occ := describeGo(t, name)
-		rv := compileRun(name, e.Val)
+		rv := compileRun16(name, e.Val)
 		_, inTable := tbl[name]
 		c.R.Case(e.Name+"|"+name, occ > 0 || methodFound || rv.accepted || inTable)
 
@@ -747,7 +747,7 @@ func c16TopLevel(c *Ctx, e zooEnv, names []string, rows []*Sx) {
 			// `name()` is not refused as an unknown function)
 			acc := rv.accepted
 			if !acc {
-				fv := compileRun(name+"()", e.Val)
+				fv := compileRun16(name+"()", e.Val)
 				acc = fv.accepted || !(strings.Contains(fv.cerr, "unknown func") || strings.Contains(fv.cerr, "ambiguous"))
 			}
 			if inDoc != acc {
@@ -755,11 +755,11 @@ func c16TopLevel(c *Ctx, e zooEnv, names []string, rows []*Sx) {
 				if acc {
 					key = "c16:doc-omits-accepted-name"
 				}
-				violateKeyed(c, Violation{What: "docgen.CreateDoc(env).Variables differs from the names the checker accepts", Key: key, Input: in,
+				violateKeyed16(c, Violation{What: "docgen.CreateDoc(env).Variables differs from the names the checker accepts", Key: key, Input: in,
 					Expect: fmt.Sprintf("listed=%v", acc), Got: fmt.Sprintf("listed=%v (compile: %s)", inDoc, rv.cerr)})
 			}
 		} else if i == 0 {
-			violateKeyed(c, Violation{What: "docgen.CreateDoc panics on a map environment holding a nil value (nil reflect.Type in docgen.use)", Key: "c16:docgen-panics-on-nil-entry", Input: in, Expect: "a Context", Got: docErr})
+			violateKeyed16(c, Violation{What: "docgen.CreateDoc panics on a map environment holding a nil value (nil reflect.Type in docgen.use)", Key: "c16:docgen-panics-on-nil-entry", Input: in, Expect: "a Context", Got: docErr})
 		}
 
 		// ---- oracle: accepted => resolvable with the assumed type
@@ -775,14 +775,14 @@ func c16TopLevel(c *Ctx, e zooEnv, names []string, rows []*Sx) {
 			case t.Kind() == reflect.Map && t.Key().Kind() == reflect.String && t.Key() != reflect.TypeOf(""):
 				key, what = "c16:defined-string-key-map-env", "names of a map environment whose key type is a defined string type are accepted but cannot be fetched"
 			}
-			violateKeyed(c, Violation{What: what, Key: key, Input: in, Expect: "run succeeds with a value of type " + fmt.Sprint(rv.ty), Got: rv.rerr})
+			violateKeyed16(c, Violation{What: what, Key: key, Input: in, Expect: "run succeeds with a value of type " + fmt.Sprint(rv.ty), Got: rv.rerr})
 		}
 		if rv.accepted && rv.ran && !valueHasType(rv.out, rv.ty) {
 			key := "c16:identifier-type-differs"
 			if methodFound && fieldFound {
 				key = "c16:method-shadows-promoted-field"
 			}
-			violateKeyed(c, Violation{What: "the value fetched at run time does not have the type the checker assumed", Key: key, Input: in,
+			violateKeyed16(c, Violation{What: "the value fetched at run time does not have the type the checker assumed", Key: key, Input: in,
 				Expect: "value of type " + fmt.Sprint(rv.ty), Got: fmt.Sprintf("%T", rv.out)})
 		}
 		// ---- oracle: Go resolves an exported member unambiguously => accepted (struct environments)
@@ -796,7 +796,7 @@ func c16TopLevel(c *Ctx, e zooEnv, names []string, rows []*Sx) {
 					key, what = "c16:shallower-embedded-field-marked-ambiguous", "a promoted field that Go resolves by depth is reported ambiguous"
 				}
 			}
-			violateKeyed(c, Violation{What: what, Key: key, Input: in, Expect: "accepted with type " + fmt.Sprint(ftype), Got: rv.cerr})
+			violateKeyed16(c, Violation{What: what, Key: key, Input: in, Expect: "accepted with type " + fmt.Sprint(ftype), Got: rv.cerr})
 		}
 
 		// ---- calls
@@ -821,7 +821,7 @@ func c16TopLevel(c *Ctx, e zooEnv, names []string, rows []*Sx) {
 				c.R.Mismatch("c16/func-verdict", in.Env+" "+src, row[2].String(), fmt.Sprintf("accepted=%v err=%s", cv.accepted, cv.cerr))
 			}
 			if cv.accepted && !cv.ran {
-				violateKeyed(c, Violation{What: "call of a name that does not resolve is accepted", Key: "c16:unresolvable-call-accepted", Input: c16Input{e.Name, t.String(), src, name}, Expect: "rejected", Got: cv.rerr})
+				violateKeyed16(c, Violation{What: "call of a name that does not resolve is accepted", Key: "c16:unresolvable-call-accepted", Input: c16Input{e.Name, t.String(), src, name}, Expect: "rejected", Got: cv.rerr})
 			}
 			continue
 		}
@@ -838,7 +838,7 @@ func c16TopLevel(c *Ctx, e zooEnv, names []string, rows []*Sx) {
 		}
 		src := name + "(" + args + ")"
 		cin := c16Input{e.Name, t.String(), src, name}
-		cv := compileRun(src, e.Val)
+		cv := compileRun16(src, e.Val)
 		mFunc := row[2]
 		unknownFunc := strings.Contains(cv.cerr, "unknown func")
 		if mFunc.IsL == unknownFunc {
@@ -867,10 +867,10 @@ func c16TopLevel(c *Ctx, e zooEnv, names []string, rows []*Sx) {
 					key, what = "c16:interface-member-called", "member of interface type holding a non-function accepted as callable (dynamic; not a name-resolution fault)"
 				}
 				if key != "c16:interface-member-called" {
-					violateKeyed(c, Violation{What: what, Key: key, Input: cin, Expect: "call succeeds", Got: cv.rerr})
+					violateKeyed16(c, Violation{What: what, Key: key, Input: cin, Expect: "call succeeds", Got: cv.rerr})
 				}
 			} else if !valueHasType(cv.out, cv.ty) {
-				violateKeyed(c, Violation{What: "the call's result does not have the type the checker assumed", Key: "c16:call-type-differs", Input: cin,
+				violateKeyed16(c, Violation{What: "the call's result does not have the type the checker assumed", Key: "c16:call-type-differs", Input: cin,
 					Expect: "value of type " + fmt.Sprint(cv.ty), Got: fmt.Sprintf("%T", cv.out)})
 			}
 		} else if isStructEnv && callable && (methodFound || (fieldFound && exported)) {
@@ -878,7 +878,7 @@ func c16TopLevel(c *Ctx, e zooEnv, names []string, rows []*Sx) {
 			if strings.Contains(cv.cerr, "ambiguous") {
 				key = "c16:outer-field-shadowing-embedded-marked-ambiguous"
 			}
-			violateKeyed(c, Violation{What: what, Key: key, Input: cin, Expect: "accepted", Got: cv.cerr})
+			violateKeyed16(c, Violation{What: what, Key: key, Input: cin, Expect: "accepted", Got: cv.cerr})
 		}
 	}
 }
@@ -953,7 +953,7 @@ func c16Nested(c *Ctx, envs []zooEnv) {
 				continue
 			}
 			// the receiver itself must compile and run (otherwise the probe says nothing about the member)
-			if rv := compileRun(r.path, e.Val); !rv.accepted || !rv.ran {
+			if rv := compileRun16(r.path, e.Val); !rv.accepted || !rv.ran {
 				continue
 			}
 			set := map[string]bool{"Nope": true, "k": true}
@@ -1040,7 +1040,7 @@ func c16Member(c *Ctx, e zooEnv, path string, rt reflect.Type, name string, row 
 	src := path + "." + name
 	in := c16Input{e.Name, rt.String(), src, name}
 	fieldFound, exported, ftype, _, methodFound, _, occ := describeGo(rt, name)
-	rv := compileRun(src, e.Val)
+	rv := compileRun16(src, e.Val)
 	c.R.Case(e.Name+"|"+src, occ > 0 || methodFound || rv.accepted)
 	base := rt
 	for base.Kind() == reflect.Ptr {
@@ -1093,14 +1093,14 @@ func c16Member(c *Ctx, e zooEnv, path string, rt reflect.Type, name string, row 
 		case base.Kind() == reflect.Map:
 			key, what = "c16:member-of-non-string-keyed-map-accepted", "member access on a map whose key type is not string is accepted"
 		}
-		violateKeyed(c, Violation{What: what, Key: key, Input: in, Expect: "run succeeds with a value of type " + fmt.Sprint(rv.ty), Got: rv.rerr})
+		violateKeyed16(c, Violation{What: what, Key: key, Input: in, Expect: "run succeeds with a value of type " + fmt.Sprint(rv.ty), Got: rv.rerr})
 	}
 	if rv.accepted && rv.ran && !valueHasType(rv.out, rv.ty) {
-		violateKeyed(c, Violation{What: "the checker's depth-first member search assumes another field than the one Go (and the VM) resolve", Key: "c16:member-type-depth-first-differs-from-go", Input: in,
+		violateKeyed16(c, Violation{What: "the checker's depth-first member search assumes another field than the one Go (and the VM) resolve", Key: "c16:member-type-depth-first-differs-from-go", Input: in,
 			Expect: "value of type " + fmt.Sprint(rv.ty), Got: fmt.Sprintf("%T", rv.out)})
 	}
 	if base.Kind() == reflect.Struct && fieldFound && exported && !rv.accepted {
-		violateKeyed(c, Violation{What: "exported member that Go resolves is rejected by the checker", Key: "c16:resolvable-member-rejected", Input: in, Expect: "accepted with type " + fmt.Sprint(ftype), Got: rv.cerr})
+		violateKeyed16(c, Violation{What: "exported member that Go resolves is rejected by the checker", Key: "c16:resolvable-member-rejected", Input: in, Expect: "accepted with type " + fmt.Sprint(ftype), Got: rv.cerr})
 	}
 
 	// ---- method / func-member calls
@@ -1135,7 +1135,7 @@ func c16Member(c *Ctx, e zooEnv, path string, rt reflect.Type, name string, row 
 			if occ >= 2 || methodOccurs(rt, name) {
 				key, what = "c16:ambiguous-method-accepted", "method or member that Go finds ambiguous (or that needs an addressable receiver) is accepted by the checker's depth-first search"
 			}
-			violateKeyed(c, Violation{What: what, Key: key, Input: c16Input{e.Name, rt.String(), csrc, name}, Expect: "rejected", Got: cv.rerr})
+			violateKeyed16(c, Violation{What: what, Key: key, Input: c16Input{e.Name, rt.String(), csrc, name}, Expect: "rejected", Got: cv.rerr})
 		}
 		return
 	}
@@ -1145,7 +1145,7 @@ func c16Member(c *Ctx, e zooEnv, path string, rt reflect.Type, name string, row 
 	args, ok := callArgs(ft, skip)
 	var recvVal interface{}
 	if ft.Kind() == reflect.Interface {
-		recvVal = compileRun(path, e.Val).out
+		recvVal = compileRun16(path, e.Val).out
 	}
 	dynamicOnly := false
 	if ok && ft.Kind() == reflect.Interface && recvVal != nil {
@@ -1161,7 +1161,7 @@ func c16Member(c *Ctx, e zooEnv, path string, rt reflect.Type, name string, row 
 	}
 	csrc := src + "(" + args + ")"
 	cin := c16Input{e.Name, rt.String(), csrc, name}
-	cv := compileRun(csrc, e.Val)
+	cv := compileRun16(csrc, e.Val)
 	noMethod := strings.Contains(cv.cerr, "has no method")
 	if row[2].IsL == noMethod {
 		c.R.Mismatch("c16/methodType", e.Name+" "+csrc+" : "+rt.String(), row[2].String(), fmt.Sprintf("accepted=%v err=%s", cv.accepted, cv.cerr))
@@ -1173,7 +1173,7 @@ func c16Member(c *Ctx, e zooEnv, path string, rt reflect.Type, name string, row 
 			c.R.Mismatch("c16/membercall-run", e.Name+" "+csrc+" : "+rt.String(), row[4].String(), fmt.Sprintf("ran=%v err=%s", cv.ran, cv.rerr))
 		}
 		if !cv.ran && ft.Kind() == reflect.Interface && !dynamicOnly && base.Kind() == reflect.Struct {
-			violateKeyed(c, Violation{What: "function held in a struct field of interface type is accepted as callable, but FetchFn returns the interface-kinded field and reflect's Call refuses it",
+			violateKeyed16(c, Violation{What: "function held in a struct field of interface type is accepted as callable, but FetchFn returns the interface-kinded field and reflect's Call refuses it",
 				Key: "c16:func-in-interface-field-not-callable", Input: cin, Expect: "call succeeds", Got: cv.rerr})
 		}
 		if !cv.ran && ft.Kind() == reflect.Func {
@@ -1184,12 +1184,12 @@ func c16Member(c *Ctx, e zooEnv, path string, rt reflect.Type, name string, row 
 			case !methodFound && !fieldFound:
 				key, what = "c16:ambiguous-method-accepted", "method that Go finds ambiguous (or that needs an addressable receiver) is accepted by the checker's depth-first search"
 			}
-			violateKeyed(c, Violation{What: what, Key: key, Input: cin, Expect: "call succeeds", Got: cv.rerr})
+			violateKeyed16(c, Violation{What: what, Key: key, Input: cin, Expect: "call succeeds", Got: cv.rerr})
 		} else if cv.ran && !valueHasType(cv.out, cv.ty) {
-			violateKeyed(c, Violation{What: "the call's result does not have the type the checker assumed", Key: "c16:membercall-type-differs", Input: cin,
+			violateKeyed16(c, Violation{What: "the call's result does not have the type the checker assumed", Key: "c16:membercall-type-differs", Input: cin,
 				Expect: "value of type " + fmt.Sprint(cv.ty), Got: fmt.Sprintf("%T", cv.out)})
 		}
 	} else if base.Kind() == reflect.Struct && callable && (methodFound || (fieldFound && exported)) {
-		violateKeyed(c, Violation{What: "callable exported member that Go resolves is rejected by the checker", Key: "c16:resolvable-method-rejected", Input: cin, Expect: "accepted", Got: cv.cerr})
+		violateKeyed16(c, Violation{What: "callable exported member that Go resolves is rejected by the checker", Key: "c16:resolvable-method-rejected", Input: cin, Expect: "accepted", Got: cv.cerr})
 	}
 }
